@@ -189,7 +189,7 @@ def run_C07(tier, seed, replay=None, procs=16):
     st_spec, nsc = _spec_check(max_pts=3 if full else 2)
     objs = [o for o in FS.OBJECTIVES if o != "none"]
     if not full:
-        objs = ["makespan", "flowtime", "start_latest", "max_expr", "min_bounded", "max_bounded", "cost", "two_min", "two_max",
+        objs = ["makespan", "flowtime", "start_latest", "max_expr", "min_bounded", "max_bounded", "cost", "two_min", "two_max", "two_min_w0",
                 "max_buffer", "min_buffer"]
     ps = number([replay["problem"]]) if replay else number(FS.pool(objs, shapes=("plain", "optional", "select", "variable", "buffer", "single")))
     V, st_enum = SE.prepare(ps)
@@ -251,8 +251,12 @@ def run_C15(tier, seed, replay=None, procs=16):
                 kw["logics"] = lg
             # the built-in optimiser ignores `logics`; otherwise only logics covering linear integer arithmetic are definite
             covered = (lg in SE.LIA_LOGICS) or (opt == "optimize" and bool(p["objs"]))
+            seqs = [[("solve",)]]
+            if (par, rv, dbg) == (False, False, False) and lg in (None, "QF_LIA"):
+                # the same configuration asked twice, and after an explicit (re-)initialisation
+                seqs += [[("solve",), ("solve",)], [("initialize",), ("initialize",), ("solve",), ("solve",)]]
             cases.append(dict(problem=p, solver_kw=kw, mode=opt, priority=prio, tracked=[("start", 1)],
-                              sequences=[[("solve",)]], unknown_ok=True, outside_fragment=not covered))
+                              sequences=seqs, unknown_ok=True, outside_fragment=not covered))
     if replay:
         cases = [c for c in cases if c["solver_kw"] == replay["detail"]["config"]["solver_kw"]]
     res = SE.run_cases(cases, V, procs=procs)
